@@ -3,7 +3,7 @@
    Proved exactly as stated:
      neighbors_nreachable               : forall nw, stmt_neighbors_nreachable nw
      pipeline_nreachable                : forall nw, stmt_pipeline_nreachable nw
-     depot_limits_unrestricted_refuted  : stmt_depot_limits_unrestricted_refuted
+     F1_move_refused: the former F1 witness is refused on the repaired model
    [stmt_nreachable_depot_limits] and [stmt_pipeline_depot_limits] need two facts about the network that [net_ok_b]
    does not contain:
      overflow_consistent nw : the start node stored in nw_overflow carries the overflow index (add_suitable_depots
@@ -23,7 +23,7 @@
    every operation either lowers the per-(depot,type) counts (ULe) or adds one vehicle at a depot for which
    can_depot_spawn was checked against a usage that is pointwise above the one it is added to (UAdd). *)
 From Coq Require Import Sorted.
-From RS Require Import Base BaseFacts Network NetSpec NetFacts Tour TourSpec TourStmts TourFacts TourValidFacts.
+From RS Require Import SchedPeel Base BaseFacts Network NetSpec NetFacts Tour TourSpec TourStmts TourFacts TourValidFacts.
 From RS Require Import Transition TransSpec Schedule SchedInv SchedObs SchedStruct SchedCostsFacts SchedUnservedFacts.
 From RS Require Import SchedListFacts SchedToursFacts SchedFormLimFacts SchedUsageFacts SchedTransFacts.
 From RS Require Import Swaps SwapsStmts SwapsFacts SwapsStmts2 SwapsFacts2 PipelineSched DepotStmts.
@@ -542,7 +542,7 @@ Lemma update_tours_le s forms usage dids uns p ntp r ntr moved tp trc
     = Ok (vehicles1, tours2, forms2, usage2, dummies2, ids1, dids1, uns2, costs2) ->
   ULe usage2 usage.
 Proof.
-  intros I T TOp TOr FP FR H. unfold update_tours in H.
+  intros I T TOp TOr FP FR H. apply update_tours_peel in H. unfold update_tours_prefix in H.
   monp H. mon H. monp H. mon H. monp H. inversion H; subst; clear H.
   (* the provider's part *)
   assert (Q : (forall ty t, vget p vehicles1 = Some ty -> vget p l3 = Some t ->
@@ -1294,41 +1294,22 @@ Definition sD1 : schedule := Eval vm_compute in
   match spawn_vehicle_for_path nwD sD0 0 [MT 5] with Ok (s, _) => s | _ => s_dflt end.
 Definition sD2 : schedule := Eval vm_compute in
   match spawn_vehicle_for_path nwD sD1 1 [SV 4] with Ok (s, _) => s | _ => s_dflt end.
-Definition sD3 : schedule := Eval vm_compute in
-  match override_reassign nwD sD2 (SD 0, MT 5) (Veh 0) (Veh 1) with Ok (s, _) => s | _ => s_dflt end.
-
 Lemma sD0_ok : empty_schedule nwD = Ok sD0.
 Proof. vm_compute. reflexivity. Qed.
 Lemma sD1_ok : spawn_vehicle_for_path nwD sD0 0 [MT 5] = Ok (sD1, Veh 0).
 Proof. vm_compute. reflexivity. Qed.
 Lemma sD2_ok : spawn_vehicle_for_path nwD sD1 1 [SV 4] = Ok (sD2, Veh 1).
 Proof. vm_compute. reflexivity. Qed.
-Lemma sD3_ok : override_reassign nwD sD2 (SD 0, MT 5) (Veh 0) (Veh 1) = Ok (sD3, None).
-Proof. vm_compute. reflexivity. Qed.
-Lemma sD3_tours : map (fun '(v, t) => (v, t_nodes t)) (s_tours sD2) = [(Veh 0, [SD 0; MT 5; ED 1]); (Veh 1, [SD 2; SV 4; ED 1])] /\
-                  map (fun '(v, t) => (v, t_nodes t)) (s_tours sD3) = [(Veh 1, [SD 0; MT 5; SV 4; ED 1])].
-Proof. split; vm_compute; reflexivity. Qed.
 
 Lemma single_path_valid nw n : node_is_depot nw n = false -> valid_path nw [n].
 Proof. apply single_valid_path. Qed.
 
-Lemma sD3_wreachable : wreachable nwD sD3.
-Proof.
-  eapply wr_step; [|eapply ws_override; exact sD3_ok].
-  eapply wr_step; [|eapply ws_spawn; [|exact sD2_ok]; apply single_path_valid; vm_compute; reflexivity].
-  eapply wr_step; [|eapply ws_spawn; [|exact sD1_ok]; apply single_path_valid; vm_compute; reflexivity].
-  apply wr_empty. exact sD0_ok.
-Qed.
-
-Theorem depot_limits_unrestricted_refuted : stmt_depot_limits_unrestricted_refuted.
-Proof.
-  exists nwD, sD3. split; [exact nwD_ok|]. split; [exact sD3_wreachable|].
-  intros H. assert (I0 : In 0 (map fst (nw_depots nwD))) by (vm_compute; auto).
-  assert (N0 : 0 <> (let '(od, _, _) := nw_overflow nwD in od)) by (vm_compute; discriminate).
-  destruct (H 0 I0 N0) as [A _].
-  assert (I1 : In 1 (type_ids nwD)) by (vm_compute; auto).
-  specialize (A 1 I1). vm_compute in A. apply A. reflexivity.
-Qed.
+(* Known finding F1, repaired by "fix: a start depot handed to the receiver must have room for it": before the repair
+   override_reassign (SD 0, MT 5) (Veh 0) (Veh 1) moved the maintenance-only tour of the type-0 vehicle, start depot
+   included, into the type-1 vehicle although depot 0 admits only type 0 (usage (0, 1) -> [Veh 1] against capacity 0).
+   On the repaired model the move is refused. *)
+Lemma F1_move_refused : override_reassign nwD sD2 (SD 0, MT 5) (Veh 0) (Veh 1) = Err.
+Proof. vm_compute. reflexivity. Qed.
 
 (** * 10. statements 1 and 4 are false exactly as stated (for network records / instances outside the input format) *)
 (** ** 10a. the overflow start node must carry the overflow index: [nwO] = the loaded network [nwF] of
@@ -1492,7 +1473,7 @@ Print Assumptions neighbors_nreachable.
 Print Assumptions pipeline_nreachable.
 Print Assumptions pipeline_depot_limits_under_overflow_consistent.
 Print Assumptions pipeline_depot_limits_loaded.
-Print Assumptions depot_limits_unrestricted_refuted.
+Print Assumptions F1_move_refused.
 Print Assumptions nreachable_depot_limits_refuted.
 Print Assumptions pipeline_depot_limits_refuted.
 Print Assumptions depot_limits_loaded_need_nonneg.
